@@ -75,7 +75,7 @@ def generate(ctx):
                "hypers": [base, other], "topology": ["fan_in", "fan_out", "two_layers"][(i // len(MULTI)) % 3], "freeze_at": rng.choice([3, 5, 10 ** 9]),
                "reduction": "sum", "reward": rng.choice(["scalar+", "scalar-", "tensor"]),
                "scale": rng.choice([1.0, 0.25, 2.0, -0.5, -1.5]), "p": rng.choice([0.4, 0.7]), "seed": rng.randrange(1 << 30),
-               "partial_calls": rng.random() < 0.6}
+               "partial_calls": rng.random() < 0.6, "apply_via": rng.choice(["connection", "trainer"])}
 
 
 RED = {"sum": torch.sum, "mean": torch.mean, "amax": torch.amax}
@@ -228,6 +228,9 @@ def run_multicell(ctx, desc, prop="C08"):
     except Exception as e:  # noqa: BLE001
         ctx.violation(ctx.exc_signature(e, f"construct.multicell.{name}"), f"{type(e).__name__}: {str(e)[:160]}", desc)
         return False
+    if desc.get("apply_via") == "trainer":
+        h.apply_via = "trainer"
+        ctx.count("multicell_cases_applied_through_trainer_update")
     # cell i = (connection ci[i], neuron group ni[i])
     ci, ni = {"fan_in": ([0, 1], [0, 0]), "fan_out": ([0, 0], [0, 1]), "two_layers": ([0, 1], [0, 1])}[topo]
     frozen = False
